@@ -1,5 +1,561 @@
 package sym
 
-func cmdRun(args []string) int      { return 2 }
-func cmdReplay(args []string) int   { return 2 }
-func cmdSelftest(args []string) int { return 0 }
+import (
+	"bufio"
+	"encoding/json"
+	"flag"
+	"fmt"
+	"os"
+	"path/filepath"
+	"runtime"
+	"sort"
+	"strings"
+	"time"
+)
+
+// HarnessSpec describes one harness of a property.
+type HarnessSpec struct {
+	Pkg      string         `json:"pkg"`
+	Fn       string         `json:"fn"`
+	Reach    []string       `json:"reach"`
+	Quick    map[string]int `json:"quick"`
+	Thorough map[string]int `json:"thorough"`
+	Tier     string         `json:"tier,omitempty"` // "thorough": only in thorough tier
+	Mode     string         `json:"mode,omitempty"` // "" sequential, "sched" schedule layer
+	Note     string         `json:"note,omitempty"`
+}
+
+type PropertySpec struct {
+	Level       string        `json:"level"`
+	Explanation string        `json:"explanation"`
+	Bounds      string        `json:"bounds"`
+	Assumptions []string      `json:"assumptions"`
+	Harnesses   []HarnessSpec `json:"harnesses"`
+}
+
+type knownFinding struct {
+	Kind     string // finding | fixed
+	Property string
+	Sig      string
+	Text     string
+}
+
+func loadKnownFindings(path string) []knownFinding {
+	f, err := os.Open(path)
+	if err != nil {
+		return nil
+	}
+	defer f.Close()
+	var out []knownFinding
+	sc := bufio.NewScanner(f)
+	for sc.Scan() {
+		line := strings.TrimSpace(sc.Text())
+		if line == "" || strings.HasPrefix(line, "#") {
+			continue
+		}
+		var k knownFinding
+		switch {
+		case strings.HasPrefix(line, "finding:"):
+			k.Kind = "finding"
+			line = strings.TrimSpace(strings.TrimPrefix(line, "finding:"))
+		case strings.HasPrefix(line, "fixed:"):
+			k.Kind = "fixed"
+			line = strings.TrimSpace(strings.TrimPrefix(line, "fixed:"))
+		default:
+			continue
+		}
+		for {
+			fields := strings.SplitN(line, " ", 2)
+			tok := fields[0]
+			if strings.HasPrefix(tok, "property=") {
+				k.Property = strings.TrimPrefix(tok, "property=")
+			} else if strings.HasPrefix(tok, "sig=") {
+				k.Sig = strings.TrimPrefix(tok, "sig=")
+			} else {
+				break
+			}
+			if len(fields) < 2 {
+				line = ""
+				break
+			}
+			line = strings.TrimSpace(fields[1])
+		}
+		k.Text = line
+		out = append(out, k)
+	}
+	return out
+}
+
+func violSig(v *Violation) string {
+	return v.Harness + "/" + strings.ReplaceAll(v.Label, " ", "_")
+}
+
+func cmdRun(args []string) int {
+	fs := flag.NewFlagSet("run", flag.ExitOnError)
+	prop := fs.String("property", "", "property id")
+	tier := fs.String("tier", "quick", "quick|thorough")
+	repo := fs.String("repo", repoDir(), "repo")
+	workers := fs.Int("workers", runtime.NumCPU(), "workers")
+	verbose := fs.Bool("v", false, "verbose")
+	only := fs.String("only", "", "run only harnesses whose name contains this")
+	noEvidence := fs.Bool("no-evidence", false, "do not write the evidence file")
+	fs.Parse(args)
+	vd := verifDir()
+	seed := 0
+	if s := os.Getenv("VERIF_SEED"); s != "" {
+		fmt.Sscan(s, &seed)
+	}
+	t0 := time.Now()
+
+	var index map[string]*PropertySpec
+	b, err := os.ReadFile(filepath.Join(vd, "harness", "index.json"))
+	if err != nil {
+		fmt.Println("cannot read index:", err)
+		return 2
+	}
+	if err := json.Unmarshal(b, &index); err != nil {
+		fmt.Println("bad index.json:", err)
+		return 2
+	}
+	spec := index[*prop]
+	if spec == nil {
+		fmt.Println("unknown property", *prop)
+		return 2
+	}
+	known := loadKnownFindings(filepath.Join(vd, "KNOWN_FINDINGS"))
+
+	// load all needed packages at once
+	pkgSet := map[string]bool{}
+	for _, h := range spec.Harnesses {
+		pkgSet[h.Pkg] = true
+	}
+	var pkgs []string
+	for p := range pkgSet {
+		pkgs = append(pkgs, p)
+	}
+	sort.Strings(pkgs)
+	l, err := Load(*repo, filepath.Join(vd, "harness"), pkgs)
+	if err != nil {
+		fmt.Printf("INCONCLUSIVE property=%s reason=load-error\n%v\n", *prop, err)
+		writeEvidenceFailure(vd, *prop, *tier, seed, spec, "load error: "+err.Error(), time.Since(t0), *noEvidence)
+		return 2
+	}
+	loadS := time.Since(t0).Seconds()
+
+	timeoutMs := 60000
+	if *tier == "thorough" {
+		timeoutMs = 300000
+	}
+	var results []*HarnessResult
+	var inconclusive []string
+	type hv struct {
+		pkg string
+		v   Violation
+	}
+	var allViols []hv
+	for _, h := range spec.Harnesses {
+		if h.Tier == "thorough" && *tier != "thorough" {
+			continue
+		}
+		if *only != "" && !strings.Contains(h.Fn, *only) {
+			continue
+		}
+		f := l.Func(ModulePath+"/"+h.Pkg, h.Fn)
+		if f == nil {
+			inconclusive = append(inconclusive, "harness not found: "+h.Fn)
+			continue
+		}
+		params := map[string]int{}
+		for k, v := range h.Quick {
+			params[k] = v
+		}
+		if *tier == "thorough" {
+			for k, v := range h.Thorough {
+				params[k] = v
+			}
+		}
+		var res *HarnessResult
+		if h.Mode == "sched" {
+			res = RunSched(l, f, params, *workers, timeoutMs, *verbose)
+		} else {
+			ex := &Explorer{L: l, Fn: f, Params: params, Workers: *workers, TimeoutMs: timeoutMs, Verbose: *verbose}
+			if mp, ok := params["max_paths"]; ok {
+				ex.MaxPaths = mp
+			}
+			res = ex.Run()
+		}
+		results = append(results, res)
+		if *verbose {
+			printResult(res)
+		} else {
+			fmt.Printf("  %s: paths=%d asserts=%d discharged=%d trivial=%d violations=%d queries=%d solver=%.1fs wall=%.1fs\n",
+				res.Harness, res.Paths, res.Asserts, res.Discharged, res.Trivial, len(res.Violations), res.Queries, res.SolveTime.Seconds(), res.Wall.Seconds())
+		}
+		for msg, n := range res.EngineErrors {
+			inconclusive = append(inconclusive, fmt.Sprintf("%s: engine error x%d: %s", h.Fn, n, msg))
+		}
+		if res.Unknown > 0 || res.NUnknown > 0 {
+			inconclusive = append(inconclusive, fmt.Sprintf("%s: %d solver unknown/timeout", h.Fn, res.Unknown+res.NUnknown))
+		}
+		for _, e := range res.SolverErrors {
+			inconclusive = append(inconclusive, h.Fn+": solver error: "+e)
+		}
+		for st, n := range res.Statuses {
+			if st == "end:unwind" || st == "end:steps" || st == "end:infeasible" {
+				inconclusive = append(inconclusive, fmt.Sprintf("%s: %d paths ended with %s (bound insufficient)", h.Fn, n, st))
+			}
+		}
+		if res.MaxPaths {
+			inconclusive = append(inconclusive, h.Fn+": path budget exhausted")
+		}
+		for _, lab := range h.Reach {
+			if res.Reached[lab] == 0 {
+				inconclusive = append(inconclusive, fmt.Sprintf("%s: VACUOUS reach label %q never covered", h.Fn, lab))
+			}
+		}
+		for _, v := range res.Violations {
+			allViols = append(allViols, hv{h.Pkg, v})
+		}
+	}
+
+	// ---- replay distinct violations natively ----
+	type sigInfo struct {
+		pkg       string
+		first     *Violation
+		count     int
+		confirmed bool
+		tried     int
+		result    string
+		path      string
+	}
+	sigs := map[string]*sigInfo{}
+	var sigOrder []string
+	for i := range allViols {
+		v := &allViols[i].v
+		s := violSig(v)
+		si := sigs[s]
+		if si == nil {
+			si = &sigInfo{pkg: allViols[i].pkg, first: v}
+			sigs[s] = si
+			sigOrder = append(sigOrder, s)
+		}
+		si.count++
+	}
+	natives := map[string]*NativeTest{}
+	defer func() {
+		for _, nt := range natives {
+			nt.Close()
+		}
+	}()
+	replayDir := filepath.Join(vd, "replays")
+	for _, s := range sigOrder {
+		si := sigs[s]
+		nt := natives[si.pkg]
+		if nt == nil {
+			var err error
+			nt, err = BuildNativeTest(*repo, filepath.Join(vd, "harness"), si.pkg)
+			if err != nil {
+				inconclusive = append(inconclusive, "native replay build failed: "+err.Error())
+				natives[si.pkg] = &NativeTest{}
+				continue
+			}
+			natives[si.pkg] = nt
+		}
+		if nt.Bin == "" {
+			continue
+		}
+		// try up to 3 witnesses of this signature
+		for i := range allViols {
+			v := &allViols[i].v
+			if violSig(v) != s || si.tried >= 3 || si.confirmed {
+				continue
+			}
+			si.tried++
+			path := filepath.Join(replayDir, fmt.Sprintf("%s_%s.json", *prop, sanitize(s)))
+			if err := writeReplayFile(path, *prop, si.pkg, v); err != nil {
+				continue
+			}
+			res, _ := nt.Run(path, 20*time.Second)
+			si.result = res
+			si.path = path
+			if confirms(v, res) {
+				si.confirmed = true
+				v.Confirmed = "native:" + res
+				si.first = v
+			}
+		}
+	}
+
+	// ---- classify ----
+	nViol := 0
+	var knownLines, violLines []string
+	for _, s := range sigOrder {
+		si := sigs[s]
+		if !si.confirmed {
+			inconclusive = append(inconclusive, fmt.Sprintf("counterexample %s not reproduced natively (%s)", s, si.result))
+			continue
+		}
+		isKnown := false
+		for _, k := range known {
+			if k.Kind == "finding" && k.Property == *prop && k.Sig == s {
+				isKnown = true
+				knownLines = append(knownLines, fmt.Sprintf("KNOWN-FINDING: property=%s sig=%s %s", *prop, s, k.Text))
+			}
+		}
+		if isKnown {
+			continue
+		}
+		nViol++
+		violLines = append(violLines, fmt.Sprintf("VIOLATION property=%s replay=%s", *prop, si.path))
+		fmt.Printf("  violation %s (%d paths) native=%s\n", s, si.count, si.result)
+	}
+	// remove replay files of signatures that are not reported
+	for _, s := range sigOrder {
+		si := sigs[s]
+		reported := false
+		for _, vl := range violLines {
+			if strings.HasSuffix(vl, si.path) {
+				reported = true
+			}
+		}
+		if !reported && si.path != "" {
+			os.Remove(si.path)
+		}
+	}
+
+	// ---- cross-check sampled queries with other solvers ----
+	cross := crossCheck(results, *tier, seed)
+	if cross.Disagree > 0 {
+		inconclusive = append(inconclusive, fmt.Sprintf("solver disagreement on %d sampled queries", cross.Disagree))
+	}
+
+	wall := time.Since(t0)
+	if !*noEvidence {
+		writeEvidence(vd, *prop, *tier, seed, spec, results, nViol, inconclusive, knownLines, cross, loadS, wall)
+	}
+	for _, k := range knownLines {
+		fmt.Println(k)
+	}
+	if nViol > 0 {
+		for _, vl := range violLines {
+			fmt.Println(vl)
+		}
+		return 1
+	}
+	if len(inconclusive) > 0 {
+		sort.Strings(inconclusive)
+		for i, r := range inconclusive {
+			if i < 12 {
+				fmt.Printf("INCONCLUSIVE property=%s reason=%s\n", *prop, r)
+			}
+		}
+		return 2
+	}
+	fmt.Printf("OK property=%s tier=%s wall=%.1fs\n", *prop, *tier, wall.Seconds())
+	return 0
+}
+
+func sanitize(s string) string {
+	var sb strings.Builder
+	for _, c := range s {
+		switch {
+		case c >= 'a' && c <= 'z', c >= 'A' && c <= 'Z', c >= '0' && c <= '9', c == '_', c == '-':
+			sb.WriteRune(c)
+		default:
+			sb.WriteByte('_')
+		}
+	}
+	r := sb.String()
+	if len(r) > 120 {
+		r = r[:120]
+	}
+	return r
+}
+
+type crossResult struct {
+	Checked  int
+	Disagree int
+	Solvers  []string
+	Seconds  float64
+}
+
+func crossCheck(results []*HarnessResult, tier string, seed int) crossResult {
+	t0 := time.Now()
+	cr := crossResult{Solvers: []string{"z3-new 5.1.0", "cvc5 1.0"}}
+	limit := 6
+	if tier == "thorough" {
+		limit = 40
+	}
+	for _, r := range results {
+		for _, q := range r.CrossQueries {
+			if cr.Checked >= limit {
+				break
+			}
+			cr.Checked++
+			for _, argv := range [][]string{{"z3-new", "-in", "-smt2", "-T:60"}, {"cvc5", "--lang=smt2", "--tlimit=60000"}} {
+				res, _ := RunScript(q.Script, argv, 70*time.Second)
+				if res != Unknown && res.String() != q.Verdict {
+					cr.Disagree++
+					fmt.Printf("  SOLVER DISAGREEMENT on %s: z3=%s %s=%s\n", q.Label, q.Verdict, argv[0], res)
+				}
+			}
+		}
+	}
+	cr.Seconds = time.Since(t0).Seconds()
+	return cr
+}
+
+func writeEvidenceFailure(vd, prop, tier string, seed int, spec *PropertySpec, reason string, wall time.Duration, skip bool) {
+	if skip {
+		return
+	}
+	ev := map[string]interface{}{
+		"property_id": prop, "tier": tier, "seed": seed, "level": spec.Level,
+		"coverage": map[string]interface{}{
+			"explanation": "run failed before exploration: " + reason, "evaluations": 0, "distinct_nontrivial": 0,
+		},
+		"wall_s": wall.Seconds(), "violations": 0, "inconclusive": []string{reason},
+	}
+	b, _ := json.MarshalIndent(ev, "", " ")
+	os.MkdirAll(filepath.Join(vd, "evidence"), 0o755)
+	os.WriteFile(filepath.Join(vd, "evidence", prop+".json"), b, 0o644)
+}
+
+func writeEvidence(vd, prop, tier string, seed int, spec *PropertySpec, results []*HarnessResult, nViol int,
+	inconclusive, knownLines []string, cross crossResult, loadS float64, wall time.Duration) {
+	funcs := map[string]bool{}
+	stubs := map[string]bool{}
+	paths, queries, asserts, trivial, discharged, nsat, nunsat, nunk := 0, 0, 0, 0, 0, 0, 0, 0
+	distinct := 0
+	var solverS float64
+	var samples []interface{}
+	var perHarness []interface{}
+	reach := map[string]int{}
+	states, transitions, validated := 0, 0, 0
+	for _, r := range results {
+		for f := range r.Funcs {
+			funcs[f] = true
+		}
+		for s := range r.Stubs {
+			stubs[s] = true
+		}
+		paths += r.Paths
+		queries += r.Queries
+		asserts += r.Asserts
+		trivial += r.Trivial
+		discharged += r.Discharged
+		nsat += r.NSat
+		nunsat += r.NUnsat
+		nunk += r.NUnknown
+		distinct += len(r.Distinct)
+		solverS += r.SolveTime.Seconds()
+		for _, s := range r.Samples {
+			if len(samples) < 12 {
+				samples = append(samples, s)
+			}
+		}
+		for k, n := range r.Reached {
+			reach[r.Harness+":"+k] += n
+		}
+		states += r.SchedStates
+		transitions += r.SchedTransitions
+		validated += r.SchedValidated
+		perHarness = append(perHarness, map[string]interface{}{
+			"harness": r.Harness, "params": r.Params, "paths": r.Paths, "path_statuses": r.Statuses,
+			"assertions_checked": r.Asserts, "assertions_trivially_true": r.Trivial, "assertions_discharged_unsat": r.Discharged,
+			"solver_queries": r.Queries, "solver_time_s": r.SolveTime.Seconds(), "wall_s": r.Wall.Seconds(),
+			"violations_found": len(r.Violations), "ssa_instructions_executed": r.Steps,
+		})
+	}
+	var fl []string
+	for f := range funcs {
+		if strings.Contains(f, "verif") || strings.Contains(f, "VerifH_") {
+			continue
+		}
+		fl = append(fl, f)
+	}
+	sort.Strings(fl)
+	if len(samples) == 0 {
+		samples = append(samples, map[string]interface{}{"note": "no assertion was reached"})
+	}
+	cov := map[string]interface{}{
+		"explanation": spec.Explanation + " Decided by symbolic execution of the real SSA (go/ssa built from the current working tree of the repository) with z3 deciding every assertion on every feasible path; counterexamples are replayed natively before being reported.",
+		"evaluations":         queries,
+		"distinct_nontrivial": distinct,
+		"rule": "evaluations = SMT queries sent to z3 (branch feasibility + negated assertions); distinct_nontrivial = discharged (unsat) assertion queries that did not fold to a constant and mention at least one symbolic variable, distinct by (assertion label, path decision list)",
+		"samples":                     samples,
+		"functions_encoded":           fl,
+		"functions_encoded_count":     len(fl),
+		"stubs_and_models_used":       SortedKeys(stubs),
+		"bounds":                      spec.Bounds,
+		"paths":                       paths,
+		"queries":                     queries,
+		"queries_sat":                 nsat,
+		"queries_unsat":               nunsat,
+		"queries_unknown":             nunk,
+		"assertions_checked":          asserts,
+		"assertions_trivially_true":   trivial,
+		"assertions_discharged_unsat": discharged,
+		"solver_time_s":               solverS,
+		"load_and_ssa_build_s":        loadS,
+		"reach_labels":                reach,
+		"per_harness":                 perHarness,
+		"cross_checked":               map[string]interface{}{"queries": cross.Checked, "disagreements": cross.Disagree, "solvers": cross.Solvers, "seconds": cross.Seconds},
+		"inconclusive":                inconclusive,
+		"known_findings_matched":      knownLines,
+		"solver":                      "z3 4.8.12 (/usr/bin/z3 -in, incremental, :global-declarations)",
+		"exhaustive":                  false,
+	}
+	if spec.Level == "model_checking" {
+		cov["states"] = states
+		cov["transitions"] = transitions
+		cov["traces_validated_against_impl"] = validated
+	}
+	ev := map[string]interface{}{
+		"property_id": prop, "tier": tier, "seed": seed, "level": spec.Level,
+		"coverage": cov, "assumptions": spec.Assumptions,
+		"wall_s": wall.Seconds(), "violations": nViol,
+	}
+	b, _ := json.MarshalIndent(ev, "", " ")
+	os.MkdirAll(filepath.Join(vd, "evidence"), 0o755)
+	os.WriteFile(filepath.Join(vd, "evidence", prop+".json"), b, 0o644)
+}
+
+func cmdReplay(args []string) int {
+	if len(args) < 1 {
+		fmt.Println("usage: p9sym replay <file>")
+		return 2
+	}
+	b, err := os.ReadFile(args[0])
+	if err != nil {
+		fmt.Println(err)
+		return 2
+	}
+	var rf replayFile
+	if err := json.Unmarshal(b, &rf); err != nil {
+		fmt.Println(err)
+		return 2
+	}
+	nt, err := BuildNativeTest(repoDir(), filepath.Join(verifDir(), "harness"), rf.Pkg)
+	if err != nil {
+		fmt.Println(err)
+		return 2
+	}
+	defer nt.Close()
+	abs, _ := filepath.Abs(args[0])
+	res, out := nt.Run(abs, 30*time.Second)
+	fmt.Println("native replay result:", res)
+	v := &Violation{Kind: rf.Kind, Label: rf.Label}
+	if confirms(v, res) {
+		fmt.Printf("VIOLATION property=%s replay=%s\n", rf.Property, abs)
+		return 1
+	}
+	if os.Getenv("VERIF_VERBOSE") != "" {
+		fmt.Println(out)
+	}
+	return 0
+}
+
+func cmdSelftest(args []string) int {
+	return selftest()
+}
